@@ -19,7 +19,9 @@ vars == <<l, w>>
 
 EmptyG == [steps |-> <<>>, pools |-> <<>>, defaults |-> <<>>]
 NoPend == [s |-> 0, deps |-> <<>>]
-NoInv  == [targets |-> <<>>, j |-> 1, k |-> 0, adopt |-> FALSE, file |-> "build.ninja"]
+NoInv  == [targets |-> <<>>, j |-> 1, k |-> 0, adopt |-> FALSE, file |-> "build.ninja", explain |-> FALSE]
+\* What `-d explain` last said and has not yet been matched with a check result.
+NoXpl  == [kind |-> "", loc |-> "", file |-> "", sig |-> <<>>]
 
 \* Counters proving the monitors were exercised (non-vacuity), kept across scenarios.
 Cov0 == [scn |-> 0, inv |-> 0, start |-> 0, finish |-> 0, fail |-> 0, intr |-> 0, pu |-> 0,
@@ -28,7 +30,8 @@ Cov0 == [scn |-> 0, inv |-> 0, start |-> 0, finish |-> 0, fail |-> 0, intr |-> 0
          skipAfterChange |-> 0, reload |-> 0, repeatInv |-> 0, adoptRec |-> 0,
          discRec |-> 0, outsideClosure |-> 0, keptGoing |-> 0, stall |-> 0,
          crash |-> 0, kill |-> 0, cycle |-> 0, unknownPath |-> 0, multiOrder |-> 0,
-         loadedRec |-> 0, valRun |-> 0, badgraph |-> 0, expect |-> 0]
+         loadedRec |-> 0, valRun |-> 0, badgraph |-> 0, expect |-> 0,
+         rmdir |-> 0, xplMissing |-> 0, xplNorec |-> 0, xplChanged |-> 0, xplClean |-> 0]
 
 Fresh(id, fam, viol, cov) ==
   [scn |-> id, fam |-> fam,
@@ -41,6 +44,7 @@ Fresh(id, fam, viol, cov) ==
    shown |-> "", shownMsvc |-> FALSE, lastFin |-> 0, lastReads |-> <<>>, lastHasDep |-> FALSE,
    prevOK |-> FALSE, prevTargets |-> <<>>, prevFile |-> "", changed |-> TRUE, repeat |-> FALSE,
    inInv |-> FALSE, errSeen |-> FALSE, lastOk |-> FALSE, p1names |-> {},
+   xpl |-> NoXpl, locs |-> <<>>, lastSum |-> <<"none", 0>>,
    viol |-> viol, cov |-> cov]
 
 Init == l = 1 /\ w = Fresh("", "", {}, Cov0)
@@ -101,6 +105,18 @@ NRunModel == Cardinality({x \in DOMAIN w.iv.st : w.iv.st[x] = "Running"})
 \* Pending promotions must have been made before anything else happens.
 OwedLbl == Lbl({"CONF"}, "promotion-missed", w.owed = {})
 
+\* -d explain (DESIGN 12.13): what the check of a dirty step s said (x) is the manifest rule's
+\* reason for the step's current record, and what it listed as hashed is the rule's signature.
+XplReasonOK(g, s, x) ==
+  LET rec == CurRec(s)
+      miss == MissingOf(g, w.file, s, rec.deps)
+  IN /\ x.kind \in {"missing", "norec", "changed"}
+     /\ s \in DOMAIN w.locs /\ x.loc = w.locs[s]
+     /\ CASE x.kind = "missing" -> x.file \in miss
+          [] x.kind = "norec" -> miss = {} /\ rec.tok = ""
+          [] OTHER -> /\ miss = {} /\ rec.tok # ""
+                      /\ x.sig = SigShown(g, w.file, s, rec.deps)
+
 ---------------------------------------------------------------------------
 \* One operator per event kind: the next mirrored state.
 
@@ -114,7 +130,8 @@ DoManifest(ev) ==
 DoFs(ev) == [w EXCEPT !.file = (ev.path :> ev.mt) @@ @, !.changed = TRUE]
 
 DoInvoke(ev) ==
-  LET inv == [targets |-> ev.targets, j |-> ev.j, k |-> ev.k, adopt |-> ev.adopt, file |-> ev.file]
+  LET inv == [targets |-> ev.targets, j |-> ev.j, k |-> ev.k, adopt |-> ev.adopt, file |-> ev.file,
+              explain |-> ev.explain]
       rep == w.prevOK /\ ~w.changed /\ ev.targets = w.prevTargets /\ ev.file = w.prevFile
   IN [w EXCEPT !.inv = inv, !.workNo = 0, !.bad = FALSE, !.g = EmptyG,
                !.cur = <<>>, !.st = <<>>,
@@ -122,6 +139,7 @@ DoInvoke(ev) ==
                !.started = {}, !.finOK = {}, !.finFail = {}, !.intr = {}, !.run = {},
                !.nOK = 0, !.p1ok = FALSE, !.pend = NoPend, !.lastDF = 0, !.lastFin = 0,
                !.repeat = rep, !.inInv = TRUE, !.errSeen = FALSE, !.p1names = {},
+               !.xpl = NoXpl, !.locs = <<>>,
                !.cov = BumpIf(Bump(@, "inv"), "repeatInv", rep)]
 
 DoWork(ev) ==
@@ -146,6 +164,7 @@ DoWork(ev) ==
                !.iv = SchedInit(g2),
                !.pq = [q \in PoolNames(g2) |-> {}], !.pr = [q \in PoolNames(g2) |-> 0],
                !.owed = {}, !.fout = <<>>,
+               !.xpl = NoXpl, !.locs = [i \in DOMAIN ev.builds |-> ev.builds[i].loc],
                !.p1names = IF ev.n = 2 /\ ~w.bad THEN {w.g.steps[s].outs[1] : s \in w.started} ELSE {},
                !.started = {}, !.finOK = {}, !.finFail = {}, !.intr = {}, !.run = {},
                !.pend = NoPend, !.lastDF = 0,
@@ -186,6 +205,14 @@ DoSet(ev) ==
           [] ev.prev = "Running" /\ new = "Done" -> fo = "ok"
           [] ev.prev = "Running" /\ new = "Failed" -> fo = "fail"
           [] OTHER -> TRUE
+      \* -d explain (DESIGN 12.13): the check of a Ready step said why it is dirty, exactly when
+      \* the manifest rule calls it dirty, with the rule's reason, and what it listed as hashed
+      \* is the rule's signature.
+      x == w.xpl
+      xplok ==
+        IF ~w.inv.explain \/ ev.prev # "Ready" \/ x.kind = "used" THEN TRUE
+        ELSE IF ~DirtyNow(g, s) THEN x.kind = ""
+        ELSE XplReasonOK(g, s, x)
       owed2 == IF new = "Done" THEN SchedPromoted(g, w.iv.st, s)
                ELSE IF ev.prev = "Want" THEN w.owed \ {s} ELSE {}
       v == Lbl({"CONF"}, "set-prev", okid /\ StOf(s) = ev.prev)
@@ -195,11 +222,19 @@ DoSet(ev) ==
            \cup Lbl({"CONF"}, "set-counts", ev.counts = CountsSeq(iv2.counts))
            \cup Lbl({"CONF"}, "set-pending", ev.pending = iv2.pending)
            \cup Lbl({"CONF"}, "set-pools", Range(ev.pools) = shownPools)
+           \cup Lbl({"CONF"}, "explain", xplok)
            \cup (IF ev.prev = "Want" THEN {} ELSE OwedLbl)
   IN IF w.bad \/ ~okid THEN [w EXCEPT !.viol = @ \cup Lbl({"CONF"}, "bad-graph", w.bad)]
      ELSE [w EXCEPT !.st = (s :> ev.new) @@ @,
                     !.iv = iv2, !.pq = pq2, !.pr = pr2, !.owed = owed2,
                     !.pend = IF w.pend.s = s /\ ev.new = "Done" THEN NoPend ELSE @,
+                    !.xpl = IF ev.prev = "Ready" THEN NoXpl ELSE @,
+                    !.cov = IF w.inv.explain /\ ev.prev = "Ready"
+                              THEN Bump(@, CASE x.kind = "missing" -> "xplMissing"
+                                             [] x.kind = "norec" -> "xplNorec"
+                                             [] x.kind = "changed" -> "xplChanged"
+                                             [] OTHER -> "xplClean")
+                              ELSE @,
                     !.viol = @ \cup v]
 
 DoStart(ev) ==
@@ -251,8 +286,9 @@ DoFinish(ev) ==
            \cup Lbl({"C16"}, "rspfile-disk",
                   ("rspdisk" \in DOMAIN ev /\ s \in StepIds(g) /\ g.steps[s].hasrsp)
                      => ev.rspdisk = g.steps[s].rspc)
-      cov == BumpIf(BumpIf(BumpIf(Bump(w.cov, "finish"), "fail", ev.out = "fail"),
-                "intr", ev.out = "intr"), "multiOrder", Len(ev.cands) > 1)
+      cov == BumpIf(BumpIf(BumpIf(BumpIf(Bump(w.cov, "finish"), "fail", ev.out = "fail"),
+                "intr", ev.out = "intr"), "multiOrder", Len(ev.cands) > 1),
+                "rmdir", "rmdir" \in DOMAIN ev.notes)
   IN IF w.bad \/ s \notin StepIds(g) THEN [w EXCEPT !.viol = @ \cup Lbl({"CONF"}, "bad-graph", w.bad)]
      ELSE [w EXCEPT !.run = @ \ {s},
                     !.finOK = IF ok THEN @ \cup {s} ELSE @,
@@ -275,6 +311,18 @@ DoPf(ev) ==
                (ev.id = w.lastFin /\ ev.t = "ok" /\ w.lastHasDep) => ev.disc = w.lastReads)
   IN IF w.bad THEN w ELSE [w EXCEPT !.viol = @ \cup v]
 
+\* n2 logs a line through the progress display; `-d explain` lines are decoded by the harness
+\* (lexically) into x = [kind, loc, file] or the listing of what was hashed.
+DoPl(ev) ==
+  LET x == ev.x
+      shown == <<x.ins, x.disc, x.cmd, IF x.hasrsp THEN <<x.rsp>> ELSE <<>>, x.outs>>
+  IN IF w.bad \/ x.kind = "" THEN w
+     ELSE IF x.kind = "sig"
+       THEN [w EXCEPT !.xpl = [@ EXCEPT !.sig = shown],
+                      !.viol = @ \cup Lbl({"CONF"}, "explain-listing", w.xpl.kind = "changed" /\ ~x.bad)]
+       ELSE [w EXCEPT !.xpl = [kind |-> x.kind, loc |-> x.loc, file |-> x.file, sig |-> <<>>],
+                      !.viol = @ \cup Lbl({"CONF"}, "explain-unmatched", w.xpl.kind = "" /\ w.inv.explain)]
+
 DoDbw(ev) ==
   LET g == w.g
       torn == "kept" \in DOMAIN ev /\ ev.kept < ev.len
@@ -291,7 +339,9 @@ DoDbw(ev) ==
                           IF w.inv.adopt THEN "rec-deps-adopt" ELSE "rec-deps",
                           (w.inv.adopt \/ w.pend.s = s) => ev.deps = expected)
                    \cup Lbl({"C02"}, "rec-missing-file", MissingOf(g, w.file, s, ev.deps) = {})
-                   \cup Lbl({"C13"}, "uncanonical-dep", Range(ev.deps) \cap Uncanonical(g) = {}))
+                   \cup Lbl({"C13"}, "uncanonical-dep", Range(ev.deps) \cap Uncanonical(g) = {})
+                   \* restat of a dirty step: the reason was given against the record being replaced
+                   \cup Lbl({"CONF"}, "explain", (w.inv.adopt /\ w.inv.explain) => XplReasonOK(g, s, w.xpl)))
       cov == BumpIf(BumpIf(BumpIf(Bump(w.cov, "dbw"), "adoptRec", isBuild /\ w.inv.adopt),
                 "discRec", isBuild /\ ev.deps # <<>>), "crash", "kept" \in DOMAIN ev)
   IN IF w.bad \/ ~isBuild THEN [w EXCEPT !.cov = cov]
@@ -299,6 +349,7 @@ DoDbw(ev) ==
      ELSE [w EXCEPT !.log = IF torn THEN @ ELSE Append(@, rec),
                     !.cur = IF torn THEN @ ELSE (s :> rec) @@ @,
                     !.pend = IF w.pend.s = s THEN NoPend ELSE @,
+                    !.xpl = IF w.inv.adopt /\ w.inv.explain THEN [@ EXCEPT !.kind = "used"] ELSE @,
                     !.viol = @ \cup v, !.cov = cov]
 
 DoPu(ev) ==
@@ -394,6 +445,7 @@ DoEnd(ev) ==
   IN [w EXCEPT !.viol = IF dead THEN @ \cup vdead ELSE @ \cup v \cup vexit,
                !.cov = IF dead THEN @ ELSE cov,
                !.inInv = FALSE, !.lastOk = (~dead /\ ok),
+               !.lastSum = <<ev.summary, IF ev.summary = "ran" THEN ev.n ELSE 0>>,
                !.prevOK = ~dead /\ ok /\ loaded /\ ~w.inv.adopt /\ allExist /\ w.workNo = 1,
                !.prevTargets = w.inv.targets, !.prevFile = w.inv.file,
                !.changed = FALSE]
@@ -412,6 +464,10 @@ DoExpect(ev) ==
            \cup Lbl({"C09"}, "model-deps", \A s \in StepIds(g) :
                     (s \in DOMAIN ev.deps /\ s \in recNow) => CurRec(s).deps = ev.deps[s])
            \cup Lbl({"C02", "C08"}, "model-recorded", recNow = Range(ev.recorded))
+           \* the summary line: the number of commands the model says completed successfully
+           \cup Lbl({"C19"}, "model-summary",
+                  (ev.nok >= 0 /\ ev.ok /\ w.lastOk /\ ev.unknown = <<>>) =>
+                     IF ev.nok = 0 THEN w.lastSum = <<"nowork", 0>> ELSE w.lastSum = <<"ran", ev.nok>>)
   IN IF w.bad \/ w.workNo = 0 THEN w
      ELSE [w EXCEPT !.viol = @ \cup v, !.cov = Bump(@, "expect")]
 
@@ -436,17 +492,18 @@ EvFinish   == At("finish")   /\ w' = DoFinish(Ev)
 EvPf       == At("pf")       /\ w' = DoPf(Ev)
 EvDbw      == At("dbw")      /\ w' = DoDbw(Ev)
 EvPu       == At("pu")       /\ w' = DoPu(Ev)
+EvPl       == At("pl")       /\ w' = DoPl(Ev)
 EvEnd      == At("end")      /\ w' = DoEnd(Ev)
 EvStall    == At("stall")    /\ w' = DoStall(Ev)
 EvKill     == At("kill")     /\ w' = DoKill(Ev)
 EvExpect   == At("expect")   /\ w' = DoExpect(Ev)
 \* Events that carry no obligation of their own.
 EvOther    == /\ l <= Len(Rec)
-              /\ Rec[l].e \in {"done", "ps", "pl", "note"}
+              /\ Rec[l].e \in {"done", "ps", "note"}
               /\ l' = l + 1 /\ w' = w
 
 Next == \/ EvScn \/ EvManifest \/ EvFs \/ EvInvoke \/ EvWork \/ EvSet \/ EvStart
-        \/ EvFinish \/ EvPf \/ EvDbw \/ EvPu \/ EvEnd \/ EvStall \/ EvKill \/ EvExpect \/ EvOther
+        \/ EvFinish \/ EvPf \/ EvDbw \/ EvPu \/ EvPl \/ EvEnd \/ EvStall \/ EvKill \/ EvExpect \/ EvOther
 
 Spec == Init /\ [][Next]_vars
 
